@@ -923,6 +923,128 @@ def literal_sweep(tier="quick"):
     return out
 
 
+# ------------------------------------------------------------------------------------------ scale stress
+SCALE_N = [0, 1, 2, 79, 80, 81, 100, 200, 300, 1000]
+
+
+def nest_blocks(depth, kinds, leaf="x = x + 1"):
+    """`depth` nested blocks inside `def f`: kinds cycles through if/for/while/match/elif/else headers"""
+    lines = ["def f(x: int, xs: List[int]) -> int:"]
+    ind = 4
+    for i in range(depth):
+        k = kinds[i % len(kinds)]
+        pad = " " * ind
+        if k == "if":
+            lines.append(pad + "if x > %d:" % i)
+        elif k == "for":
+            lines.append(pad + "for v%d in xs:" % i)
+        elif k == "while":
+            lines.append(pad + "while x < %d:" % i)
+        elif k == "else":
+            lines += [pad + "if x == %d:" % i, pad + "    pass", pad + "else:"]
+        elif k == "elif":
+            lines += [pad + "if x == %d:" % i, pad + "    pass", pad + "elif x > 0:"]
+        elif k == "match":
+            lines += [pad + "match x:", pad + "    case %d:" % i]
+            ind += 4
+        ind += 4
+    lines.append(" " * ind + leaf)
+    lines.append("    return x")
+    return "\n".join(lines) + "\n"
+
+
+def scale_sweep(tier="quick"):
+    """-> list of (origin, source, cfg).  Every dimension is pushed past plausible hard-coded bounds: powers of two
+    (and neighbours) for depths and widths, 0/1/2/100/300 for counts, 10^4 for sizes."""
+    out = []
+    D = {}
+    # ---- block nesting depth x indent width (header/body columns: depth*width crosses 16, 32, 64, 128, 256, 512, 800)
+    depths = list(range(1, 41)) + [63, 64, 65, 100]
+    mixes = [["if"], ["for", "if", "while"], ["match"], ["if", "match", "else", "for", "elif", "while"]]
+    for d in depths:
+        for mi, mix in enumerate(mixes if (d <= 20 or d in (32, 33, 64, 65, 100)) else mixes[1:2]):
+            if "match" in mix and d > 40:
+                continue      # a match level costs two indentation levels: depth 40 already reaches level 80
+            for w in ((1, 2, 4, 8) if (mi == 1 or d in (8, 9, 16, 17, 32, 33, 64, 65)) else (4,)):
+                out.append(("scale:nest:%d:%d:w%d" % (d, mi, w), nest_blocks(d, mix), {"indent_width": w}))
+    # nested classes/methods: def inside class, match inside method
+    out.append(("scale:nest:class", "class C:\n    x: int\n\n    def m(self) -> int:\n" + "".join(" " * (8 + 4 * i) + "if self.x > %d:\n" % i for i in range(30)) + " " * 128 + "return 1\n        return 0\n", {}))
+    # ---- expression nesting depth
+    for n in (1, 2, 16, 17, 63, 64, 65, 128, 200):
+        e = {
+            "paren": "(" * n + "x" + ")" * n,
+            "call": "f(" * n + "x" + ")" * n,
+            "index": "a[" * n + "0" + "]" * n,
+            "neg": "-" * 1 + "(-" * (n - 1) + "x" + ")" * (n - 1),
+            "not": "not " * n + "x",
+            "list": "[" * n + "]" * n,
+            "tuple": "(" * n + "1, 2" + ")" * n,
+            "method": "x" + ".m()" * n,
+            "field": "x" + ".f" * n,
+            "pow": " ** ".join(["x"] * (n + 1)),
+            "dict": "{1: " * n + "2" + "}" * n,
+            "await": "await " * n + "x",
+            "try": "x" + "?" * n,
+        }
+        for k, v in e.items():
+            out.append(("scale:expr:%s:%d" % (k, n), "def f() -> None:\n    y = %s\n" % v, {}))
+    # ---- line length / element counts
+    for n in SCALE_N[1:]:
+        items = ", ".join("a%d" % i for i in range(n))
+        body = ["y = " + " + ".join("a%d" % i for i in range(n)),
+                "y = " + " and ".join("a%d" % i for i in range(n)),
+                "y = f(%s)" % items, "y = [%s]" % items, "y = (%s,)" % items, "y = {%s}" % items,
+                "y = {%s}" % ", ".join("%d: a%d" % (i, i) for i in range(n)),
+                "y = f(%s)" % ", ".join("k%d=%d" % (i, i) for i in range(n)),
+                "%s = 1" % " = ".join("a%d" % i for i in range(n)) if n > 1 else "a0 = 1",
+                "%s = t" % ", ".join("a%d" % i for i in range(n)) if n > 1 else "a0 = t"]
+        for cfgv in ({}, {"line_length": 20}, {"line_length": 1000, "indent_width": 2}):
+            out.append(("scale:line:%d:%s" % (n, cfgv.get("line_length", 120)), "def f() -> None:\n" + "".join("    %s\n" % b for b in body), cfgv))
+    # ---- identifier length
+    for n in (1, 2, 63, 64, 65, 255, 256, 257, 1000):
+        nm = "a" * n
+        out.append(("scale:ident:%d" % n, "import %s::%s as %s\nconst %s: %s = 1\ndef %s(%s: %s) -> %s:\n    %s = %s.%s(%s=%s)\n    return %s\nmodel %s[%s] with %s:\n    %s: %s\nenum %s:\n    %s\n    %s(%s)\n"
+                    % ((nm,) * 3 + (nm.upper(), nm) + (nm,) * 4 + (nm,) * 5 + (nm,) + (nm.upper(),) + (nm,) * 4 + (nm,) + (nm, nm + "b", nm)), {}))
+    # ---- counts: parameters, fields, arms, decorators, imports, variants, methods, elif branches, statements, type args
+    for n in (0, 1, 2, 100, 300):
+        rng = range(n)
+        src = "".join("import m%d\n" % i for i in rng)
+        src += "from mod import %s\n" % ", ".join("n%d as q%d" % (i, i) for i in rng) if n else ""
+        src += "import %sx\n" % ("super::" * n)
+        src += "".join("@dec%d(%d)\n" % (i, i) for i in rng) + "def f(%s) -> None:\n    pass\n" % ", ".join("p%d: int = %d" % (i, i) for i in rng)
+        src += "def g[%s](x: Dict[%s]) -> (%s) -> int:\n    pass\n" % (", ".join("T%d" % i for i in range(max(n, 1))), ", ".join("T%d" % i for i in range(max(n, 1))), ", ".join("int" for _ in rng))
+        src += "model M:\n" + ("".join("    f%d: int = %d\n" % (i, i) for i in rng) or "    only: int\n") + "".join("\n    def m%d(self) -> int:\n        return %d\n" % (i, i) for i in rng)
+        src += "enum E:\n" + ("".join("    V%d(%s)\n" % (i, ", ".join(["int"] * (i % 4 + 1))) for i in rng) or "    V\n")
+        src += "trait T:\n" + ("".join("    def t%d(self) -> int: ...\n" % i for i in rng) or "    pass\n")
+        src += "def h(x: int) -> int:\n    match x:\n" + ("".join("        %d => %d\n" % (i, i) for i in rng) or "") + "        _ => 0\n"
+        src += "def k(x: int) -> int:\n    if x == -1:\n        return 0\n" + "".join("    elif x == %d:\n        return %d\n" % (i, i) for i in rng) + "    else:\n        return 1\n"
+        src += "class C extends B with %s:\n    x: int\n" % ", ".join("T%d" % i for i in range(max(n, 1)))
+        # methods only (blank-line rule `has_fields || !first_method`), tuple types/values of every size (`len() == 1` comma rule)
+        src += "class OnlyMethods:\n" + ("".join("    def m%d(self) -> int:\n        return %d\n\n" % (i, i) for i in rng) or "    x: int\n")
+        if n:
+            tyl = ", ".join(["int"] * n) + ("," if n == 1 else "")      # the type parser takes a trailing comma only for one element
+            src += "def tt(a: (%s)) -> (%s):\n    return (%s,)\n" % (tyl, tyl, ", ".join(["1"] * n))
+        out.append(("scale:count:%d" % n, src, {}))
+    # ---- sizes: long literals, many lines, blank-line runs
+    out.append(("scale:str:10000", 'const S: str = "%s"\nconst B: bytes = b"%s"\ndef f() -> str:\n    return f"%s{x}%s"\n' % ("s" * 10000, "b" * 10000, "f" * 5000, "g" * 5000), {}))
+    out.append(("scale:doc:10000", '"""\n' + "".join("line %d of a long docstring\n" % i for i in range(3000)) + '"""\nconst A: int = 1\n', {}))
+    out.append(("scale:lines:10000", "def f() -> None:\n" + "".join("    x%d = %d\n" % (i, i) for i in range(10000)), {}))
+    out.append(("scale:decls:2000", "".join("const C%d: int = %d\n" % (i, i) for i in range(2000)), {}))
+    for n in (1, 2, 3, 50, 300):
+        out.append(("scale:blank:%d" % n, "const A: int = 1" + "\n" * n + "def f() -> None:\n    x = 1" + "\n" * n + "    y = 2" + "\n" * n + "def g() -> None:\n    pass" + "\n" * n, {}))
+        out.append(("scale:comment:%d" % n, "# c\n" * n + "def f() -> None:\n" + "    # c\n" * n + "    x = 1\n" + "# c\n" * n, {}))
+    # ---- a declaration that ends in n nested trailing `match` statements (the end-of-file trim loop), last in the file and not
+    for n in (1, 2, 3, 10):
+        body = "".join(" " * (4 + 8 * i) + "match x:\n" + " " * (8 + 8 * i) + "case %d:\n" % i for i in range(n)) + " " * (4 + 8 * n) + "pass\n"
+        out.append(("scale:trail:%d" % n, "def f(x: int) -> None:\n" + body, {}))
+        out.append(("scale:trail2:%d" % n, "def f(x: int) -> None:\n" + body + "const AFTER: int = 1\n", {}))
+    # ---- numbers around the printers' thresholds (i64 bounds, Debug's exponent switch at 1e16 / 1e-5)
+    out.append(("scale:num", "".join("const N%d: float = %s\n" % (i, v) for i, v in enumerate(
+        ["9223372036854775807", "0", "1e15", "9999999999999998.0", "1e16", "1.5e16", "1e17", "1e300", "1.7976931348623157e308", "0.0001", "0.00001", "0.000001",
+         "1e-5", "1e-7", "5e-324", "123456789012345678.0", "0.1", "1_000_000", "1_0.5_0"])), {}))
+    return out
+
+
 # ------------------------------------------------------------------------------------------ corpus
 def corpus_files():
     out = []
@@ -938,8 +1060,10 @@ def corpus_files():
     return sorted(out)
 
 
-def run_decls(binary, sources, text=False):
-    inp = "".join(json.dumps({"op": "decls", "src": s, "text": text}) + "\n" for s in sources)
+def run_decls(binary, sources, text=False, cfgs=None):
+    """cfgs: optional list of dicts with indent_width / line_length (FormatConfig of format_source_with_config)"""
+    cfgs = cfgs or [{}] * len(sources)
+    inp = "".join(json.dumps(dict({"op": "decls", "src": s, "text": text}, **c)) + "\n" for s, c in zip(sources, cfgs))
     out = vlib.run_harness(binary, ["run", "c08"], inp, timeout=1800)
     res = [json.loads(l) for l in out.split("\n") if l]
     if len(res) != len(sources):
@@ -969,7 +1093,11 @@ def gather(chk, binary):
             items.append(("risky:%s:%d" % (r, j), "\n".join(g.decl(kind, (r,))) + "\n"))
             used |= g.used
     items += literal_sweep(chk.tier)
-    res = run_decls(binary, [s for _, s in items])
+    cfgs = [{}] * len(items)
+    for o, src, c in scale_sweep(chk.tier):
+        items.append((o + (":cfg=%s" % json.dumps(c, sort_keys=True) if c else ""), src))
+        cfgs.append(c)
+    res = run_decls(binary, [s for _, s in items], cfgs=cfgs)
     return [(o, s, r) for (o, s), r in zip(items, res)], used
 
 
